@@ -18,7 +18,7 @@ def minVersion (op : Nat) : Option Nat :=
   else none
 
 /-- `_process_operation(operation, payload)` including the version decorator -/
-def processOperation (c : Ctx) (e : Engine) (it : Item) : R (Engine × Data) :=
+def processOperation (c : Ctx) (e : Engine) (it : Item) : R (Effect × Data) :=
   match minVersion it.payload.op with
   | none => kerr Rsn.operationNotSupported "operation is not supported by the server."
   | some mv =>
@@ -66,7 +66,7 @@ def processBatch (c : Ctx) (n : Nat) (stop : Bool) :
   | e, it :: rest, acc =>
     if n > 1 && batchIdMissing it then (e, .error (Rsn.invalidMessage, "Batch item ID is undefined.")) else
     match processOperation c e it with
-    | .ok (e', d) => processBatch c n stop e' rest (⟨it.payload.op, it.batchId, .ok d⟩ :: acc)
+    | .ok (eff, d) => processBatch c n stop (applyEffect e eff) rest (⟨it.payload.op, it.batchId, .ok d⟩ :: acc)
     | .error err =>
       let acc' := ⟨it.payload.op, it.batchId, .error err⟩ :: acc
       if stop then (e, .ok acc'.reverse) else processBatch c n stop e rest acc'
